@@ -86,6 +86,10 @@ def path_argument(world, gd, spec):
     inds = [s['index'] for s in world['slabs']]
     fn = lambda i: os.path.join(gd, 'halo_info', 'halo_info_%03d.asdf' % i)
     kind = spec['kind']
+    if world.get('lc'):
+        if kind in ('file', 'list'):
+            return os.path.join(gd, 'lc_halo_info.asdf'), [0]
+        return gd + ('/' if spec.get('slash') else ''), [0]
     if kind == 'zdir':
         return gd + ('/' if spec.get('slash') else ''), sorted(inds)
     if kind == 'halo_info':
@@ -180,6 +184,43 @@ def check_values(sub, lo, serials, world, out_problem):
             return 'lagr_pos differs by %g' % d.max()
     if 'rvint' in names and not np.array_equal(np.asarray(sub['rvint'][lo:hi]), rv):
         return 'rvint passthrough is not bit-exact'
+    return None
+
+
+def check_lc_subsamples(cat, world):
+    """Light-cone layout: the stored npstartA/npoutA index the single lc_pid_rv file directly."""
+    from . import world as W
+    slab = world['slabs'][0]
+    lay = W.slab_layout(slab)['A']
+    halos, sub = cat.halos, cat.subsamples
+    if len(halos) != len(slab['halos']):
+        return 'row-count', '%d rows, %d halos stored' % (len(halos), len(slab['halos']))
+    if len(sub) != len(lay['recs']):
+        return 'subsample-length', 'len(subsamples)=%d, file holds %d records' % (len(sub), len(lay['recs']))
+    st = np.asarray(halos['npstartA']).astype(np.int64)
+    ct = np.asarray(halos['npoutA']).astype(np.int64)
+    for r, h in enumerate(slab['halos']):
+        want = list(h['A'])
+        if ct[r] != len(want) or st[r] != lay['idx'][r][0]:
+            return 'wrong-count', 'row %d: (npstartA, npoutA)=(%d,%d), stored (%d,%d)' % (r, st[r], ct[r], lay['idx'][r][0], len(want))
+        lo, hi = int(st[r]), int(st[r] + ct[r])
+        for col in sub.colnames:
+            a = np.asarray(sub[col][lo:hi])
+            if col == 'pos':
+                got = np.rint(a[:, 0]).astype(np.int64).tolist() if len(a) else []
+                exact = np.array([W.lc_particle(s)[0] for s in want], dtype=np.float32).reshape(-1, 3)
+            elif col == 'vel':
+                got = np.rint(a[:, 0] * 2).astype(np.int64).tolist() if len(a) else []
+                exact = np.array([W.lc_particle(s)[1] for s in want], dtype=np.float32).reshape(-1, 3)
+            elif col == 'pid':
+                got = a.astype(np.int64).tolist()
+                exact = np.array(want, dtype=np.int64)
+            else:
+                continue
+            if got != want:
+                return 'wrong-particles', {'row': r, 'column': col, 'got_serials': got[:8], 'expected_serials': want[:8]}
+            if not np.array_equal(a, exact):
+                return 'wrong-particle-values', {'row': r, 'column': col}
     return None
 
 
